@@ -74,6 +74,10 @@ func runC19(c *core.Check) {
 	// the precedence arguments of every sub-expression print site (shared with C22): a parsed `a - (b - c)` reaches the
 	// printer with the ParenExpr possibly stripped by the formatter's normalisations, and the printer's own
 	// parenthesisation must then keep the tree.
+	// the printer's function-literal nesting level is restored by every routine that changes it (p.indent is not such a
+	// counter: writeWhitespace interprets indent/unindent marks from the whitespace buffer)
+	c.Analysed("level_changing_routines", counterBalanceRule(c, ppk, "level-balance", "level", map[string]string{}))
+	c.Floor("level-balance", 3)
 	precedenceRules(c, prog)
 	adjacencyRule(c, prog) // `- -a`, `& ^x`, `a - -b*c` in an index: parsed sources contain these too
 	flagGates(c, prog, ppk, apk)
